@@ -584,3 +584,7 @@ T("opc9-twin-mod-div", "C08", LL, "                before = [next_target() for _
 
 # ---------------------------------------------------------------- OPC-10
 M("opc10-push-before-queue", "C08", LL, "        if code[offs] in dis.hasjrel:\n            todo.append((offs + 2 + arg * jmul, stack[:]))\n", "        if code[offs] in dis.hasjrel and code[offs] in (op[\"SETUP_FINALLY\"], op[\"SETUP_WITH\"], op[\"SETUP_ASYNC_WITH\"]):\n            stack.append(offs + 2 + arg * jmul)\n        if code[offs] in dis.hasjrel:\n            todo.append((offs + 2 + arg * jmul, stack[:]))\n", ["OPC-10"], accept_analysis_error=True)
+
+# ---------------------------------------------------------------- TRUTH-1
+M("truth1-elaborate-or-prune", "C10", "_customization.py", "            replacement = elaborate(frame, next_inner)\n            if replacement is not None:  # pragma: no branch\n                return replacement\n        return PRUNE if prune else None", "            return elaborate(frame, next_inner) or (PRUNE if prune else None)\n        return PRUNE if prune else None", "TRUTH-1")
+M("truth1-engine-if-replacement", "C10", EX, "        if replacement is None:\n            continue\n", "        if not replacement and replacement != ():\n            continue\n", ["TRUTH-1"], accept_analysis_error=True)
